@@ -263,6 +263,12 @@ func countComplaints(bcasts [][]byte) int {
 }
 
 func zzDKG_qual_participant(vecKind, shareKind int, shareFirst bool, answerKind int, otherComplains bool, otherAnswerKind int) {
+	zzDKG_qual_participant_early(vecKind, shareKind, shareFirst, answerKind, otherComplains, otherAnswerKind, 0)
+}
+
+// earlyKind > 0: the dealer broadcasts an (unsolicited) complaint answer naming this participant in round 1,
+// before its share and vector are delivered.
+func zzDKG_qual_participant_early(vecKind, shareKind int, shareFirst bool, answerKind int, otherComplains bool, otherAnswerKind int, earlyKind int) {
 	const n, t, d, me, other = 4, 2, 0, 1, 2
 	proc := &recProc{}
 	st, err := NewFeldmanVSSQual(n, t, me, proc, d)
@@ -270,6 +276,9 @@ func zzDKG_qual_participant(vecKind, shareKind int, shareFirst bool, answerKind 
 	verifAssert(st.Start(nondetBytes(32)) == nil, "Start")
 	vec := dkgVecMsg(vecKind, n, t, d)
 	sh := dkgShareMsg(shareKind, n, t, d, me)
+	if earlyKind > 0 {
+		verifAssert(st.HandleBroadcastMsg(d, dkgAnswerMsg(earlyKind, n, t, d, me)) == nil, "early answer handled")
+	}
 	// round 1 (vecKind < 0 / shareKind < 0: message omitted)
 	for k := 0; k < 2; k++ {
 		if (k == 0) == shareFirst {
@@ -285,7 +294,7 @@ func zzDKG_qual_participant(vecKind, shareKind int, shareFirst bool, answerKind 
 	verifAssert(iComplained <= 1, "an honest participant broadcasts its complaint at most once")
 	vecOK := vecKind == 0 || vecKind == 6
 	shareMatches := (vecKind == 0 && shareKind == 0) || (vecKind == 6 && shareKind == 1)
-	if vecOK {
+	if vecOK && earlyKind < 3 { // (a malformed unsolicited answer disqualifies the dealer at once: the instance then ignores it)
 		verifAssert((iComplained == 1) == !shareMatches, "complaint iff the share is missing, malformed or does not match the vector")
 	}
 	// round 2: the other honest participant's complaint (it is honest, so it only complains with cause),
@@ -316,6 +325,13 @@ func zzDKG_qual_participant(vecKind, shareKind int, shareFirst bool, answerKind 
 	}
 	answerGood := func(kind int) bool { return (kind == 1 && refVec == 0) || (kind == 2 && refVec == 1) }
 	disq := !vecOK
+	if earlyKind >= 3 {
+		disq = true // malformed unsolicited answer
+	}
+	// the first answer naming this participant is the one that counts (a later one is a flagged duplicate)
+	if earlyKind == 1 || earlyKind == 2 {
+		answerKind = earlyKind
+	}
 	if vecOK {
 		if iComplained == 1 && !answerGood(answerKind) {
 			disq = true // our complaint unanswered or wrongly answered
@@ -344,6 +360,12 @@ func zzDKG_qual_participant(vecKind, shareKind int, shareFirst bool, answerKind 
 // same verdict on the dealer; their complaints are routed to each other as the code emits them.
 
 func zzDKG_qual_agreement(vecKind, share1Kind, share2Kind int, order int, answer1Kind, answer2Kind int) {
+	zzDKG_qual_agreement_early(vecKind, share1Kind, share2Kind, order, answer1Kind, answer2Kind, 0)
+}
+
+// early1Kind > 0: in round 1, before anything else, the dealer broadcasts an unsolicited complaint answer naming
+// participant 1 (reliable broadcast: both honest participants see it).
+func zzDKG_qual_agreement_early(vecKind, share1Kind, share2Kind int, order int, answer1Kind, answer2Kind int, early1Kind int) {
 	const n, t, d = 4, 1, 0
 	me := [2]int{1, 2}
 	procs := [2]*recProc{{}, {}}
@@ -353,6 +375,11 @@ func zzDKG_qual_agreement(vecKind, share1Kind, share2Kind int, order int, answer
 		verifAssert(err == nil, "constructor")
 		verifAssert(s.Start(nondetBytes(32)) == nil, "Start")
 		st[k] = s
+	}
+	if early1Kind > 0 {
+		m := dkgAnswerMsg(early1Kind, n, t, d, me[0])
+		_ = st[0].HandleBroadcastMsg(d, m)
+		_ = st[1].HandleBroadcastMsg(d, m)
 	}
 	vec := dkgVecMsg(vecKind, n, t, d)
 	shKinds := [2]int{share1Kind, share2Kind}
